@@ -175,7 +175,7 @@ func (m *Machine) intrinsic(fn *ssa.Function, args []Value) (Value, bool) {
 		return m.bytealgModel(name, args)
 	case "math":
 		return m.mathModel(name, args)
-	case "math/bits", "strconv", "strings", "fmt", "log", "errors", "time", "runtime", "internal/abi", "unicode/utf8", "os", "internal/race", "internal/godebug", "unsafe", "bytes", "net/http", "context", "crypto/rand", "reflect", "internal/reflectlite", "io":
+	case "math/bits", "strconv", "strings", "fmt", "log", "errors", "time", "runtime", "internal/abi", "unicode/utf8", "os", "internal/race", "internal/godebug", "unsafe", "bytes", "net/http", "context", "crypto/rand", "reflect", "internal/reflectlite", "io", "internal/stringslite":
 		return m.libModel(pkg, name, fn, args)
 	}
 	return nil, false
